@@ -147,7 +147,7 @@ def e2e_configs(chk):
         # that size for EVERY core count, so smaller pictures cannot show a leak of that part of the parallel geometry into coding
         # (seeded changes C05-1: CDEF strength search at segment borders, 10-bit; C05-2: per-thread temporal-filter state)
         ("multiseg-8bit-m8", dict(w=640, h=384, n=6, bd=8, content=4, **{"cfg.enc_mode": 8, "cfg.hierarchical_levels": 2})),
-        ("multiseg-10bit-m8", dict(w=640, h=384, n=4, bd=10, content=2, **{"cfg.enc_mode": 8, "cfg.hierarchical_levels": 2})),
+        ("multiseg-10bit-m8", dict(w=640, h=384, n=5, bd=10, content=4, **{"cfg.enc_mode": 8, "cfg.hierarchical_levels": 2})),
     ]
     if not quick:
         base += [
